@@ -1,6 +1,7 @@
 package main
 
 import (
+	"go/types"
 	"strings"
 
 	"golang.org/x/tools/go/ssa"
@@ -217,6 +218,60 @@ func runC11(e *Engine, r *Report) {
 			r.check(okz, "GD-close-ready", "NativeSM.Offloaded is `remaining == 0`", e.pos(off.Pos()),
 				"fully offloaded means the loaded counter reached zero", "Offloaded no longer reports `SetOffloaded() == 0`")
 		}
+	}
+
+	// ---- snapshot jobs run only on a node the pool still holds loaded: a
+	// job is handed to a snapshot worker (send on ssWorker.requestC) only
+	// when its shard is in the pool's loaded set (workerPool.nodes, whose
+	// members hold a reference that keeps the state machine open) and the
+	// loaded node is the instance the job was created for. A parked job of
+	// a stopped shard would otherwise run against a closed state machine.
+	reqC := r.needField("", "ssWorker", "requestC")
+	nodesF := r.needField("", "workerPool", "nodes")
+	nodeInst := r.needField("", "node", "instanceID")
+	jobInst := r.needField("", "job", "instanceID")
+	if reqC != nil && nodesF != nil && nodeInst != nil && jobInst != nil {
+		var lookupOK VM = func(v ssa.Value) bool {
+			ex, ok := v.(*ssa.Extract)
+			if !ok || ex.Index != 1 {
+				return false
+			}
+			lk, ok := ex.Tuple.(*ssa.Lookup)
+			return ok && lk.CommaOk && fieldV(nodesF)(lk.X)
+		}
+		n := 0
+		for _, fn := range e.ScopeFuncs() {
+			forEachInstr(fn, func(in ssa.Instruction) {
+				var ch ssa.Value
+				switch x := in.(type) {
+				case *ssa.Send:
+					ch = x.Chan
+				case *ssa.Select:
+					for _, st := range x.States {
+						if st.Dir == types.SendOnly && fieldV(reqC)(st.Chan) {
+							ch = st.Chan
+						}
+					}
+				}
+				if ch == nil || !fieldV(reqC)(ch) {
+					return
+				}
+				n++
+				q := reqBool("the job's shard is in workerPool.nodes (lookup ok)", lookupOK, true)
+				if ok, _ := e.guardedOnAllPaths(in, q); ok {
+					r.ok("GD-job-loaded", "job dispatch in "+fname(fn)+" requires the shard to be loaded", e.ipos(in), "guard in the dispatching function")
+				} else {
+					cs := e.CallerSites(fn)
+					r.check(len(cs) > 0, "GD-job-loaded", "job dispatch in "+fname(fn)+" has callers", e.ipos(in), "dispatch helper is called", "dispatch is neither guarded nor called")
+					for _, s := range cs {
+						r.guard("GD-job-loaded", "job dispatch via "+fname(fn)+" called in "+fname(s.Parent()), s.(ssa.Instruction), q)
+					}
+				}
+				r.guard("GD-job-loaded", "job dispatch in "+fname(fn), in,
+					reqCmp("loaded node's instanceID == job's instanceID", "==", fieldV(nodeInst), fieldV(jobInst)))
+			})
+		}
+		r.floor("GD-job-loaded", n, 1)
 	}
 
 	// ---- Update family only from the apply entry (StateMachine.Handle)
